@@ -74,7 +74,18 @@ def _expectedFailure(func):
         try:
             func(*args, **kwargs)
         except Exception:
-            raise _ExpectedFailure(sys.exc_info())
+            exc_info = sys.exc_info()
+            try:
+                # Attach the traceback of the expected failure to the test,
+                # as TestCase.expectFailure does.
+                report = getattr(
+                    getattr(func, "__self__", None), "_report_traceback", None
+                )
+                if report is not None:
+                    report(exc_info)
+                raise _ExpectedFailure(exc_info)
+            finally:
+                del exc_info
         raise _UnexpectedSuccess
 
     return wrapper
